@@ -1,6 +1,6 @@
 //! Stand-in for the Junos `cli` binary spawned by the local transport: it hands its stdin and
 //! stdout descriptors to the simulation harness (over the Unix socket named by
-//! VERIF_FAKECLI_SOCK, as SCM_RIGHTS), closes its own copies and sleeps. From then on the
+//! VERIF_FAKECLI_SOCK, as SCM_RIGHTS), closes its own copies and sleeps (keeping the socket open, so that the harness sees it die). From then on the
 //! harness *is* the `cli` process's I/O, in-process and in lock-step with the client.
 
 use std::os::fd::AsRawFd;
@@ -44,7 +44,8 @@ fn main() {
         let ack = [b'c'];
         let _ = libc::write(sock.as_raw_fd(), ack.as_ptr().cast(), 1);
     }
-    drop(sock);
+    // the socket stays open for as long as this process lives: its EOF tells the harness that we were killed
+    let _life = sock;
     loop {
         // SAFETY: pause until killed (the transport spawns us with kill_on_drop)
         unsafe {
